@@ -46,14 +46,27 @@ end slice
 
 namespace narrow
 
-/-- `aten_narrow`: `Slice(x, [start], [start+length], [dim])`. -/
-def model (s : Shape) (dim start length : Int) : Option Shape :=
-  sliceOp s dim start (start + length) 1
+/-- Trace-time wrap of a negative Python-int start (fix ca35059): `start + self.shape[dim]` with Python
+indexing of the static shape; tensor-valued arguments are not touched. -/
+def wrapStart (s : Shape) (tensorArgs : Bool) (dim start : Int) : Option Int :=
+  if tensorArgs ∨ ¬ start < 0 then some start
+  else
+    match normAxis s.length dim with
+    | none => none          -- Python IndexError
+    | some a => some (start + (s.getD a 0 : Nat))
 
-def term (tensorArgs : Bool) (dim start length : Int) : String :=
+/-- `aten_narrow`: `Slice(x, [start'], [start'+length], [dim])`. -/
+def model (s : Shape) (tensorArgs : Bool) (dim start length : Int) : Option Shape :=
+  match wrapStart s tensorArgs dim start with
+  | none => none
+  | some st => sliceOp s dim st (st + length) 1
+
+def term (s : Shape) (tensorArgs : Bool) (dim start length : Int) : String :=
   let w (x : String) := tOp "Reshape" [x, "[-1]"] [("allowzero", "0")]
   if tensorArgs then tOp "Slice" ["x0", w "x2", tOp "Add" [w "x2", w "x3"], w "x1"]
-  else tOp "Slice" ["x0", w (tI start), tOp "Add" [w (tI start), w (tI length)], w (tI dim)]
+  else
+    let st := (wrapStart s false dim start).getD start
+    tOp "Slice" ["x0", w (tI st), tOp "Add" [w (tI st), w (tI length)], w (tI dim)]
 
 /-- `torch.narrow`: `length ≥ 0`; `start` in `[-d, d]` (negative wraps once); `start+length ≤ d`. -/
 def spec (s : Shape) (dim start length : Int) : Option Shape :=
@@ -111,15 +124,30 @@ end index_select
 
 namespace chunk
 
+/-- Trace-time piece bounds (fix f427d44): `chunk_size = ceil(d / chunks)`, pieces `[k·c, min((k+1)·c, d))`;
+`chunks` empty pieces for `d = 0`. -/
+def bounds (d chunks : Nat) : List (Nat × Nat) :=
+  let c := (d + chunks - 1) / chunks
+  if c = 0 then List.replicate chunks (0, 0)
+  else (List.range ((d + c - 1) / c)).map (fun k => (k * c, min (k * c + c) d))
+
+def useSlices (d chunks : Nat) : Bool := (bounds d chunks).length != chunks || d == 0
+
 def model (s : Shape) (chunks : Nat) (dim : Int) : Option (List Shape) :=
   if chunks = 1 then some [s]
   else
     match normAxis s.length dim with
     | none => none
-    | some a => (splitNumOutputs (s.getD a 0) chunks).map (fun szs => szs.map (setAt s a))
+    | some a =>
+      let d := s.getD a 0
+      if useSlices d chunks then
+        (bounds d chunks).mapM (fun b => sliceOp s dim b.1 b.2 1)
+      else (splitNumOutputs d chunks).map (fun szs => szs.map (setAt s a))
 
-def term (chunks : Nat) (dim : Int) : List String :=
+def term (d chunks : Nat) (dim : Int) : List String :=
   if chunks = 1 then [tOp "Identity" ["x0"]]
+  else if useSlices d chunks then
+    (bounds d chunks).map (fun b => tOp "Slice" ["x0", tInts [(b.1 : Int)], tInts [(b.2 : Int)], tInts [dim]])
   else (List.range chunks).map (fun k =>
     tOp "Split" ["x0"] [("axis", tI dim), ("num_outputs", toString chunks)] ++ "#" ++ toString k)
 
@@ -146,11 +174,13 @@ def model (s : Shape) (size : Int) (dim : Int) : Option (List Shape) :=
   match normAxis s.length dim with
   | none => none
   | some a =>
-    if size < 0 then none
+    if s.getD a 0 = 0 then some [s]            -- fix 71e4aaa: SequenceConstruct(self)
+    else if size < 0 then none
     else (splitScalar (s.getD a 0) size.toNat).map (fun szs => szs.map (setAt s a))
 
-def term (size dim : Int) : String :=
-  tOp "SplitToSequence" ["x0", tI size] [("axis", tI dim), ("keepdims", "1")]
+def term (d : Nat) (size dim : Int) : String :=
+  if d = 0 then tOp "SequenceConstruct" ["x0"]
+  else tOp "SplitToSequence" ["x0", tI size] [("axis", tI dim), ("keepdims", "1")]
 
 /-- `torch.split(x, split_size, dim)` (TensorShape.cpp): `num = max(ceil(d/size), 1)` pieces, the
 last one `size - (size*num - d)`; `size = 0` is legal only for `d = 0`. -/
@@ -253,15 +283,18 @@ def stepIdx (d : Nat) (bigEnd : Nat) (shift : Int) : List Nat :=
 def specIdx (d : Nat) (shift : Int) : List Nat :=
   (List.range d).map (fun (i : Nat) => (((i : Int) - shift) % (d : Int)).toNat)
 
+/-- fix 34e2b8e: the shift is reduced modulo the (static, positive) rolled size at trace time. -/
+def redShift (size : Nat) (shift : Int) : Int := if size > 0 then shift % (size : Int) else shift
+
 def model (s : Shape) (shifts dims : List Int) : Option Shape :=
   if s.length = 0 then some s
   else if s.getD 0 0 = 0 then some s
   else if dims.isEmpty then
     if shifts.length = 1 then
-      -- flatten, rotate, `Reshape(result, Shape(x))` with allowzero = 0
+      -- flatten, rotate, `Reshape(result, Shape(x), allowzero=1)` (fix 5bf0068)
       match reshape false s [-1] with
       | none => none
-      | some flat => reshape false flat (s.map (Int.ofNat ·))
+      | some flat => reshape true flat (s.map (Int.ofNat ·))
     else none
   else if shifts.length ≠ dims.length then none
   else
@@ -271,7 +304,7 @@ def model (s : Shape) (shifts dims : List Int) : Option Shape :=
       | none => none
       | some a =>
         let d := acc.getD a 0
-        some (setAt acc a (stepIdx d (numel acc) p.1).length)) s
+        some (setAt acc a (stepIdx d (numel acc) (redShift (s.getD a 0) p.1)).length)) s
 
 def stepTerm (rank : Nat) (x : String) (shift dim : Int) : String :=
   let dim := if dim < 0 then dim + (rank : Int) else dim
@@ -285,13 +318,15 @@ def term (s : Shape) (shifts dims : List Int) : String :=
   if s.length = 0 then tOp "Identity" ["x0"]
   else if s.getD 0 0 = 0 then tOp "Identity" ["x0"]
   else if dims.isEmpty then
-    let shift := shifts.getD 0 0
+    let shift := redShift (numel s) (shifts.getD 0 0)
     let flat := tOp "Reshape" ["x0", "[-1]"] [("allowzero", "0")]
     let len := if shift < 0 then tInts [-shift] else tOp "Sub" [tOp "Size" [flat], tInts [shift]]
     let big := tOp "Reshape" [tOp "Size" [flat], "[-1]"] [("allowzero", "0")]
     tOp "Reshape" [tOp "Concat" [tOp "Slice" [flat, len, big], tOp "Slice" [flat, "[0]", len]] [("axis", "0")],
-      tOp "Shape" ["x0"] [("start", "0")]] [("allowzero", "0")]
-  else (shifts.zip dims).foldl (fun acc (p : Int × Int) => stepTerm s.length acc p.1 p.2) "x0"
+      tOp "Shape" ["x0"] [("start", "0")]] [("allowzero", "1")]
+  else (shifts.zip dims).foldl (fun acc (p : Int × Int) =>
+    let a := (normAxis s.length p.2).getD 0
+    stepTerm s.length acc (redShift (s.getD a 0) p.1) p.2) "x0"
 
 def spec (s : Shape) (shifts dims : List Int) : Option Shape :=
   if dims.isEmpty then (if shifts.length = 1 then some s else none)
